@@ -133,6 +133,44 @@ fn deprecated_twins(ctx: &Ctx, rep: &Report) {
                     );
                 }
             }
+            // the deprecated zone-aware date type `Date<Tz>` is a date too: its order and equality are
+            // those of the day numbers, its accessors and successor those of the date it wraps
+            {
+                use chrono::{Datelike, FixedOffset, TimeZone, Utc};
+                let n2 = if rng.below(2) == 0 { n + rng.below(5) as i64 - 2 } else { crate::gen::random_day(&mut rng, &cat) };
+                if let Some(d2) = NaiveDate::from_num_days_from_ce_opt(n2 as i32) {
+                    let got = guard(|| {
+                        let (a, b) = (Utc.from_utc_date(&d), Utc.from_utc_date(&d2));
+                        let fo = FixedOffset::east_opt(3600).unwrap();
+                        let (fa, fb) = (fo.from_utc_date(&d), fo.from_utc_date(&d2));
+                        (
+                            [a.cmp(&b), fa.cmp(&fb), a.partial_cmp(&b).unwrap(), fa.partial_cmp(&fb).unwrap()],
+                            [a == b, fa == fb, a == fb],
+                            [a < b, a > b, a <= b, a >= b],
+                            (a.year(), a.month(), a.day(), a.ordinal(), a.weekday(), a.iso_week(), a.num_days_from_ce()),
+                            (a.succ_opt().map(|x| x.naive_utc()), a.pred_opt().map(|x| x.naive_utc()), fa.naive_utc()),
+                        )
+                    });
+                    loc.eval();
+                    match got {
+                        Err(p) => loc.violation(&format!("C01/deprecated-Date<Tz>/panic@{}", p.site()), json!({"dates": [d.to_string(), d2.to_string()]})),
+                        Ok((ords, eqs, rel, acc, nb)) => {
+                            let e = n.cmp(&n2);
+                            let ok = ords.iter().all(|o| *o == e)
+                                && eqs.iter().all(|q| *q == (n == n2))
+                                && rel == [n < n2, n > n2, n <= n2, n >= n2]
+                                && acc == (d.year(), d.month(), d.day(), d.ordinal(), d.weekday(), d.iso_week(), d.num_days_from_ce())
+                                && nb == (d.succ_opt(), d.pred_opt(), d);
+                            if !ok {
+                                loc.violation(
+                                    "C01/deprecated-Date<Tz>/order-or-accessors-differ-from-the-date",
+                                    json!({"dates": [d.to_string(), d2.to_string()], "day_numbers": [n, n2], "observed_order": format!("{:?}", ords), "observed_eq": format!("{:?}", eqs), "observed_relations": format!("{:?}", rel)}),
+                                );
+                            }
+                        }
+                    }
+                }
+            }
             loc.nontrivial(crate::mon::h2(77, n as u64));
         }
     });
